@@ -16,6 +16,7 @@ SCRATCH = "/var/tmp/twmut"
 sys.path.insert(0, ROOT)
 
 BUILDS = None
+HARNESS_REV = None
 
 
 def load_builds():
@@ -59,8 +60,15 @@ class Worker:
         os.makedirs(self.dir)
         rc, out = sh(["git", "clone", "-q", "/repo", self.repo])
         assert rc == 0, out
-        shutil.copytree(os.path.join(ROOT, "harness"), self.harness,
-                        ignore=shutil.ignore_patterns("target"))
+        if HARNESS_REV:
+            # harness as committed at HARNESS_REV (so that a baseline can be
+            # measured while the working tree is being edited)
+            p = subprocess.run("git -C %s archive %s harness | tar -x -C %s" % (ROOT, HARNESS_REV, self.dir),
+                               shell=True, stdout=subprocess.PIPE, stderr=subprocess.STDOUT, text=True)
+            assert p.returncode == 0, p.stdout
+        else:
+            shutil.copytree(os.path.join(ROOT, "harness"), self.harness,
+                            ignore=shutil.ignore_patterns("target"))
         ct = os.path.join(self.harness, "Cargo.toml")
         s = open(ct).read().replace('path = "/repo"', 'path = "%s"' % self.repo)
         open(ct, "w").write(s)
@@ -134,7 +142,7 @@ class Worker:
 
 
 def main():
-    global BUILDS
+    global BUILDS, HARNESS_REV
     BUILDS = load_builds()
     args = sys.argv[1:]
     workers = 3
@@ -157,7 +165,11 @@ def main():
             i += 1; patch_dir = args[i]
         elif args[i] == "--index":
             i += 1; index_path = args[i]
+        elif args[i] == "--harness-rev":
+            i += 1; HARNESS_REV = args[i]
         i += 1
+    patch_dir = os.path.abspath(patch_dir)
+    out_path = os.path.abspath(out_path)
     index = json.load(open(index_path or os.path.join(patch_dir, "index.json")))
     jobs = queue.Queue()
     for m in index:
